@@ -144,6 +144,7 @@ theorem step_creach (w : World) (e : Event) (h : CReach w.c) : CReach (step w e)
     simp only [step]
     split <;> exact h
   | faucet to coin => exact h
+  | reseq n => exact h
 
 /-- a world booted from an accepted instantiation -/
 def bootWorld (c : CState) (self chainPrefix : String) (timeNs height : Nat) : World :=
